@@ -295,7 +295,10 @@ class DependencyFallbacksHolder(MesonInterpreterObject):
     def _check_version(wanted: T.List[str], found: str) -> bool:
         if not wanted:
             return True
-        return not (found == 'undefined' or not version_compare_many(found, wanted)[0])
+        # 'undefined' (project without version) and 'unknown' (what
+        # Dependency.get_version() returns for a dependency without version)
+        # are placeholders: an unknown version can never satisfy a requirement.
+        return not (found in {'undefined', 'unknown'} or not version_compare_many(found, wanted)[0])
 
     def _get_candidates(self) -> T.List[CandidateType]:
         candidates: T.List[CandidateType] = []
